@@ -6,12 +6,19 @@ formula is decided by C03 / C13), so that C02 isolates the integral machinery.
 
 Quadrature: for every evaluation point r the integration grid is the union of
   * unpruned atom-centred grids (Treutler-Ahlrichs radial x Lebedev, from pyscf), shared by all evaluation points, and
-  * a dedicated spherical product grid CENTRED ON r (log-spaced radial nodes, trapezoid in ln u, spanning ~1e-4 of the
-    local length scale to 40 bohr, x Lebedev 590 / 974),
+  * a dedicated spherical product grid CENTRED ON r (log-spaced radial nodes, trapezoid in ln u, from 1e-2 of the
+    shortest local length scale (kernel width, 1 / k_F, distance to the nearest nucleus) to 40 bohr, x Lebedev
+    590 / 974, the innermost shells pruned to 50 / 194 points),
 glued together by Becke's fuzzy-cell partition of unity over the natm + 1 centres (the evaluation point is a centre of
 its own).  The atom-centred part resolves the nuclear cusps, the point-centred part resolves kernels that are narrow
 around r (down to R -> 0 for SDMX); the partition weights sum to one at every point, so no approximation is made apart
 from the quadrature itself.  Two resolutions are provided; their difference is the reference's self-error.
+
+Measured on the pinned tree (H2O / def2-SVP, also for a strongly perturbed density): NLDF lo vs hi <= 4.5e-5 at the worst
+point, 3e-6 .. 8e-6 RMS; lo vs a brute-force sum over an unpruned level-8 molecular grid (420 704 points) 2e-6 .. 8e-6
+RMS.  SDMX: lo vs hi <= 1e-6 except within 0.02 bohr of a nucleus (1e-4 .. 6e-4 at 0.01 bohr: such points are not used);
+the repository's fast path at lambda = 1.65 agrees with it to 1e-8 .. 1e-6.  Cost ~0.15 s (lo) / 0.35 s (hi) per
+evaluation point for NLDF (all feature sets of one density share the grid), ~0.6 s / 2 s for SDMX.
 """
 import math
 
@@ -85,17 +92,13 @@ class Reference:
         self.a_P = _becke_products(self.a_dist, self.atom_coords)
 
     # ---- density ingredients -----------------------------------------------------------------------------------
-    def _rho(self, coords, keep_ao=False):
+    def _rho(self, coords):
+        """(rho, grad rho, tau) of self.dm at coords, shape (5, n)."""
         from pyscf.dft import numint
         out = np.empty((5, coords.shape[0]))
-        aos = []
         for p0 in range(0, coords.shape[0], 40000):
             ao = numint.eval_ao(self.mol, coords[p0:p0 + 40000], deriv=1)
             out[:, p0:p0 + 40000] = numint.eval_rho(self.mol, ao, self.dm, xctype="MGGA", with_lapl=False)
-            if keep_ao:
-                aos.append(ao[0])
-        if keep_ao:
-            return out, np.concatenate(aos)
         return out
 
     @staticmethod
